@@ -8,6 +8,10 @@ Families
   bisect_abort    unattainable precisions (0, 1e-30) and exact iteration counts on dyadic brackets
                   (max_iter = k-1, k, k+1 for a search that needs exactly k halvings), under a watchdog:
                   RuntimeError exactly when the model says the iteration budget is exceeded, never a hang.
+  bisect_sequence 2-3 consecutive searches (different functions, directions, targets) that share the caller's
+                  full-shape bound tensors: every call within precision of its own root; bounds bitwise unchanged.
+  bisect_subulp   precision positive but finer than the float spacing of the bound dtype at the root (float32
+                  1e-9, 1e-6 around 1000; float64 1e-18): RuntimeError, or a point really within that precision.
   iv_cases        module.implied_volatility(price = module.price(volatility = v)) for the 4 Black-Scholes
                   modules on the (log-moneyness, maturity, running max, strike, call/put) grid x 12
                   volatilities of the bracket, one call per grid case (the 12 volatilities batched),
@@ -26,6 +30,7 @@ import signal
 import mpmath as mp
 import torch
 
+from mc.core.runner import HarnessError
 from mc.models import bs_closed as B
 
 mp.mp.dps = 30
@@ -119,7 +124,7 @@ def _elements(block):
         else:
             a, b = sign * SLOPES[(i + rot) % len(SLOPES)], OFFSETS[(i + rot) % len(OFFSETS)]
         if block["bracket_kind"] == "tensor":
-            lo, hi = block["brackets"][(i + rot) % len(block["brackets"])]
+            lo, hi = block["brackets"][(i + block.get("bracket_rotation", rot)) % len(block["brackets"])]
         else:
             lo, hi = block["brackets"][0]
         fr = block["fractions"]
@@ -248,6 +253,125 @@ def bisect_grid(ctx, block):
 
 def _classify_bisect(block, e):
     return "root_" + ("decreasing" if block["decreasing"] else "increasing") + ("_per_element_bracket" if block["bracket_kind"] == "tensor" else "")
+
+
+@family
+def bisect_sequence(ctx, block):
+    """Several consecutive searches that share the caller's bound tensors (full shape, dtype of the
+    targets - nothing for bisect to convert or broadcast): different functions, directions and
+    targets on the same per-element brackets.  Every call must be within precision of its own root;
+    as a by-product the caller's bound tensors must be bitwise unchanged after every call."""
+    from pfhedge._utils.bisect import bisect
+    steps = block["steps"]
+    common = {k: block[k] for k in ("shape", "dtype", "brackets", "precision", "fractions")}
+    common.update(bracket_kind="tensor", bracket_rotation=0)
+    precision = block["precision"]
+    lower = upper = snap = None
+    for k, st in enumerate(steps):
+        b = dict(common, **st)
+        fn, target, lo_k, up_k, model, bdtype, calls = _build_call(b)
+        els = _elements(b)
+        if lower is None:
+            lower, upper = lo_k, up_k
+            snap = (lower.clone(), upper.clone())
+        nstar = max(max(0, math.ceil(math.log2(float(m["hi"] - m["lo"]) / precision))) for m in model)
+        mini = dict(block, steps=steps[:k + 1])
+        n = len(els)
+        try:
+            with watchdog(20):
+                out = bisect(fn, target, lower, upper, precision=precision, max_iter=nstar + 2)
+        except _Hang:
+            ctx.tick(n)
+            ctx.violation("bisect", "hang", f"call {k + 1} of a sequence on shared bounds did not return", block=mini)
+            return
+        except (RuntimeError, ValueError) as e:
+            ctx.tick(n)
+            ctx.violation("bisect", "raises_on_reused_bounds" if k else "raises_on_attainable_precision",
+                          f"call {k + 1} of {len(steps)} on the same bound tensors ({st['fn']}, decreasing={st['decreasing']}) "
+                          f"raised {type(e).__name__}: {e}; the model completes it in {nstar} halvings",
+                          observed=f"{type(e).__name__}: {e}", expected="a root", block=mini)
+            return
+        if tuple(out.shape) != tuple(block["shape"]):
+            ctx.violation("bisect", "shape", f"output shape {tuple(out.shape)}", block=mini)
+            return
+        got = out.detach().to(torch.float64).reshape(-1).tolist()
+        for i, (e, m, x) in enumerate(zip(els, model, got)):
+            m["slope_min"] = _min_slope(b, e, m, precision)
+            tol = precision + float(_eta(m, bdtype, precision))
+            err = abs(mp.mpf(x) - m["root"])
+            if x != x or err > tol:
+                ctx.violation("bisect", "root_of_first_call" if k == 0 else "root_after_reused_bounds",
+                              f"call {k + 1} of {len(steps)} on the same bound tensors: bisect({st['fn']}"
+                              f"{' decreasing' if st['decreasing'] else ''}, element {i}, bracket [{e['lo']}, {e['hi']}], "
+                              f"target {m['y']!r}, precision {precision}, {block['dtype']}) = {x!r}; root = {float(m['root'])!r}",
+                              observed=x, expected=float(m["root"]), block=mini)
+        ctx.tick(n, nontrivial=n if k else 0)
+        if not (torch.equal(lower, snap[0]) and torch.equal(upper, snap[1])):
+            ctx.violation("bisect", "caller_bounds_mutated",
+                          f"after call {k + 1} the caller's bound tensors changed: lower {snap[0].reshape(-1).tolist()} -> "
+                          f"{lower.reshape(-1).tolist()}, upper {snap[1].reshape(-1).tolist()} -> {upper.reshape(-1).tolist()}",
+                          observed=[lower.reshape(-1).tolist(), upper.reshape(-1).tolist()],
+                          expected=[snap[0].reshape(-1).tolist(), snap[1].reshape(-1).tolist()], block=mini)
+            snap = (lower.clone(), upper.clone())   # reported once per change; the sequence goes on
+    ctx.add("bisect_sequences", 1)
+    ctx.outcome(("seq", tuple((st["fn"], st["decreasing"]) for st in steps), round(got[0], 6)))
+
+
+@family
+def bisect_subulp(ctx, block):
+    """Requested precision positive but finer than the spacing of the bound dtype's floats around the
+    root.  Once lower and upper are adjacent floats the bracket cannot shrink any more (the midpoint
+    rounds onto one of them), so its width never reaches the precision: the search cannot converge and
+    the documented behaviour is RuntimeError at max_iter.  Oracle (both clauses of the statement):
+    either RuntimeError, or the returned point really is within the requested precision of the exact
+    root (no rounding slack: with adjacent bounds there is no float inside [out - precision, out) that
+    could witness a bracket that narrow; only hitting the root exactly satisfies it)."""
+    from pfhedge._utils.bisect import bisect
+    g_t, g_m, dg_m, ginv_m, _ = PROGRAMS[block["fn"]]
+    bd, td = DT[block["bound_dtype"]], DT[block["target_dtype"]]
+    shape = tuple(block["shape"])
+    n = _numel(shape)
+    a = (-1.0 if block["decreasing"] else 1.0) * block["slope"]
+    lo, hi = block["bracket"]
+    lo_m, hi_m = mp.mpf(float(torch.tensor(lo, dtype=bd))), mp.mpf(float(torch.tensor(hi, dtype=bd)))
+    flo, fhi = a * g_m(lo_m), a * g_m(hi_m)
+    fr = block["fractions"]
+    tg = [float(flo + mp.mpf(fr[i % len(fr)]) * (fhi - flo)) for i in range(n)]
+    target = torch.tensor(tg, dtype=td).reshape(shape)
+    roots = [min(max(ginv_m(mp.mpf(y) / a), lo_m), hi_m) for y in target.reshape(-1).tolist()]
+    precision, max_iter = block["precision"], block["max_iter"]
+    # the block must be what it says: precision below half the float spacing at (at least) one root
+    if not any(precision < _spacing_below(abs(float(r)), bd) / 2 for r in roots):
+        raise HarnessError(f"bisect_subulp block is attainable: {block}")
+    lower, upper = torch.tensor(lo, dtype=bd), torch.tensor(hi, dtype=bd)
+
+    def fn(x):
+        return a * g_t(x)
+
+    ctx.tick(n, nontrivial=n)
+    try:
+        with watchdog(20):
+            out = bisect(fn, target, lower, upper, precision=precision, max_iter=max_iter)
+    except _Hang:
+        ctx.violation("bisect", "hang", f"bisect(precision={precision}, max_iter={max_iter}) did not stop", block=block)
+        return
+    except RuntimeError:
+        ctx.outcome(("subulp", block["fn"], block["bound_dtype"], precision, "RuntimeError"))
+        ctx.add("subulp_searches_aborted", 1)
+        return
+    got = out.detach().to(torch.float64).reshape(-1).tolist()
+    ctx.outcome(("subulp", block["fn"], block["bound_dtype"], precision, "returned"))
+    for i, (x, r) in enumerate(zip(got, roots)):
+        err = abs(mp.mpf(x) - r)
+        if x != x or err > precision:
+            ctx.violation("bisect", "returns_coarser_than_requested_precision",
+                          f"bisect({block['fn']}{' decreasing' if block['decreasing'] else ''} x{block['slope']}, bounds "
+                          f"[{lo}, {hi}] as {block['bound_dtype']}, target {tg[i]!r} as {block['target_dtype']}, precision="
+                          f"{precision}, max_iter={max_iter}) returned {x!r} without error; root = {float(r)!r}, |diff| = "
+                          f"{float(err):.3e} > precision (float spacing at the root {_spacing_below(abs(float(r)), bd):.3e}: "
+                          f"the bracket cannot get narrower than that, the search cannot converge)",
+                          observed=x, expected="RuntimeError, or a point within %g of %r" % (precision, float(r)), block=block)
+            return
 
 
 _HUNG = []
@@ -574,7 +698,9 @@ def run(ctx):
              "bracket x bracket representation {python floats, 0-dim tensors, per-element tensors} x all rotations of the "
              "per-element target fractions x precision x shape x dtype (full product); non-trivial = elements whose target is "
              "off-centre or whose function is decreasing.  bisect_abort: precision x max_iter x direction x shape on dyadic "
-             "brackets.  iv_cases: module x call/put x strike x (log-moneyness x maturity x running-max spec) x 12 "
+             "brackets.  bisect_sequence: all ordered pairs (plus a third call) of (program, direction) on shared per-element "
+             "bound tensors x shape x dtype x precision.  bisect_subulp: program x direction x shape x bracket x bound/target "
+             "dtype x sub-spacing precision x max_iter.  iv_cases: module x call/put x strike x (log-moneyness x maturity x running-max spec) x 12 "
              "volatilities x precision, monotone cases only; non-trivial = (case, volatility) pairs where the price pins the "
              "volatility down to ~precision.  iv_batch: the same cases of one direction in one call")
     ctx.assume("torch.exp/log/tanh/sigmoid are accurate to 2 ulp (enters the rounding slack eta only)")
@@ -642,6 +768,40 @@ def run(ctx):
         W = br[1] - br[0]
         ctx.run("bisect_abort", {"bracket": br, "precision": W / 2 ** k, "max_iter": max(k + dk, 0), "decreasing": decreasing,
                                  "shape": [3], "dtype": "float64", "fractions": [0.3, 0.5, 0.8]})
+    # consecutive searches sharing the caller's bound tensors
+    seq_progs = ["affine", "exp", "logistic", "cubic"] + ([] if quick else ["tanh"])
+    kinds = [(f, d) for f in seq_progs for d in (False, True)]
+    seq_blocks = []
+    for (f1, d1), (f2, d2) in itertools.product(kinds, kinds):
+        for shape, dname in itertools.product([[3], [2, 2]], ["float64", "float32"]):
+            for precision in ([1e-4] if quick else [1e-2, 1e-4, 1e-6]):
+                steps = [{"fn": f1, "decreasing": d1, "coeff": "per_element", "slope": None, "rotation": 0},
+                         {"fn": f2, "decreasing": d2, "coeff": "per_element", "slope": None, "rotation": 2}]
+                if (f1, d1) == (f2, d2) or not quick:
+                    # a third call: back to the first function with yet another target rotation
+                    steps.append({"fn": f1, "decreasing": not d1, "coeff": "uniform", "slope": 1.0, "rotation": 3})
+                seq_blocks.append({"steps": steps, "shape": shape, "dtype": dname, "brackets": BRACKETS,
+                                   "fractions": fractions, "precision": precision})
+    for b in seq_blocks:
+        ctx.run("bisect_sequence", b)
+    # precision finer than the floats of the bound dtype around the root: cannot converge
+    sub = []
+    for decreasing, slope, shape in itertools.product([False, True], [1.0, 0.5, 2.0], [[], [3]]):
+        # exact arithmetic (power-of-two slope): float32 bounds, float64 targets whose roots float32 cannot represent
+        for bracket, precision in [([0.0, 1.0], 1e-9), ([-2.0, 3.0], 1e-9), ([990.0, 1010.0], 1e-6), ([0.01, 10.0], 1e-8)]:
+            for max_iter in (64, 200):
+                sub.append({"fn": "affine", "decreasing": decreasing, "slope": slope, "shape": shape, "bracket": bracket,
+                            "bound_dtype": "float32", "target_dtype": "float64", "fractions": [0.3, 0.55, 0.8],
+                            "precision": precision, "max_iter": max_iter})
+    for name, decreasing, shape in itertools.product(["affine", "exp", "logistic", "cubic", "tanh"], [False, True], [[], [3]]):
+        for bd, precision, bracket in [("float32", 1e-9, [-2.0, 3.0]), ("float32", 1e-9, [0.25, 1.0]),
+                                       ("float64", 1e-18, [-2.0, 3.0]), ("float64", 1e-18, [0.25, 1.0])]:
+            sub.append({"fn": name, "decreasing": decreasing, "slope": 3.0 if name == "affine" else 1.0, "shape": shape,
+                        "bracket": bracket, "bound_dtype": bd, "target_dtype": bd, "fractions": [0.3, 0.55, 0.8],
+                        "precision": precision, "max_iter": 64 if bd == "float32" else 200})
+    ctx.add("subulp_searches", len(sub))
+    for b in sub:
+        ctx.run("bisect_subulp", b)
     # implied volatility
     s_alpha = S_QUICK if quick else S_ALPHA
     t_alpha = T_QUICK if quick else T_ALPHA
